@@ -47,6 +47,18 @@ CHECKS = {
         note="Partial: deser_ti (ser_ti x) = Ok (norm x) is not yet a Coq theorem. ConfigParser text parsing and float repr are "
              "CPython's; values containing '%' (interpolation) are outside the generated domain (O2).",
         design="DESIGN.md section 6 C04"),
+    "C05": dict(
+        text="The version-gated branches of the composeinfo, images, rpms and (1.0/1.1) treeinfo readers are part of the executable "
+             "Coq models. Proved: C05_written_header_is_current, C05_upgraded_header_reads_as_current (re-loading an upgraded file "
+             "takes the current-format branches: conversion happens once), C05_legacy_compose_uses_id_decoder (format < 0.3 takes "
+             "date/type/respin from the id through the decoder of C15). Tie + oracle: documents obtained by down-converting valid "
+             "content per the format documentation (composeinfo 1.1/1.0/0.3/0.2/0.1, images 1.0/1.1, rpms 0.2/0.3, treeinfo "
+             "1.1/1.0, pre-productmd [general]-only trees) and every fixture shipped under tests/ are loaded, written, re-loaded and "
+             "written again by the real library: current-version header with the proper type, byte-identical second write, and for "
+             "composeinfo equality with the documented mapping and with the model reader.",
+        note="Partial: the pre-productmd (0.0) and 0.3 treeinfo readers (RHEL/Fedora heuristics) are not modelled; they are covered by "
+             "the implementation-side oracle only. Known finding K3 (opensuse fixture).",
+        design="DESIGN.md section 6 C05"),
     "C06": dict(
         text="Validation is modelled as an interpreter (Base/Obj.v) over validator tables REGENERATED from the source on every run: "
              "the per-class inventory of _validate* methods (exactly what validate() runs) and the method bodies translated from "
